@@ -153,6 +153,60 @@ def case(seed_nstyles):
             "sample": {"seed": seed, "plain_rendering": next(iter(texts["plain"].values()))[:1500], "entities": len(expected)}}
 
 
+def observe_extra_types(item):
+    cap = observe.Captured()
+    project, cap = observe.parse_and_correlate([item["root"]], settings_kw={"extra_vartypes": item["extra"]}, cap=cap)
+    out = {}
+    for m in project.modules:
+        for v in m.variables:
+            out[v.name.lower()] = v.vartype.lower()
+        for p in m.subroutines + m.functions:
+            for v in list(p.variables) + [a for a in p.args if hasattr(a, "vartype")]:
+                out[p.name.lower() + "/" + v.name.lower()] = v.vartype.lower()
+            if getattr(p, "retvar", None) is not None and hasattr(p.retvar, "vartype"):
+                out[p.name.lower() + "/result"] = p.retvar.vartype.lower()
+    return out
+
+
+def case_extra_types(seed):
+    """Declarations with user-defined type names (option `extra_vartypes`, e.g. macro names of an unpreprocessed source): names that begin
+    with one another or with an intrinsic type name, listed in any order."""
+    rng = random.Random(seed)
+    stems = rng.sample(["FLOAT", "MYREAL", "real_t", "INTEGER8", "handle", "Complex_Field", "ptr"], 3)
+    names = list(stems)
+    for s_ in stems:
+        if rng.random() < 0.7:
+            names.append(s_ + rng.choice(["_PTR", "_ARR", "2", "x", "_t"]))
+    names = list(dict.fromkeys(names))
+    opt = list(names)
+    rng.shuffle(opt)
+    expected, L, body = {}, [f"module xt{seed % 1000}", "implicit none"], []
+    for i, t in enumerate(names):
+        spell = rng.choice([t, t.lower(), t.upper()])
+        form = rng.choice(["colons", "colons_tight", "attr", "blank"])
+        decl = {"colons": f"{spell} :: v{i}", "colons_tight": f"{spell}::v{i}", "attr": f"{spell}, save :: v{i}", "blank": f"{spell} v{i}"}[form]
+        L.append(decl)
+        expected[f"v{i}"] = t.lower()
+        body += [f"{spell}, intent(in) :: a{i}"]
+        expected[f"xs/a{i}"] = t.lower()
+    L += ["contains", "subroutine xs(" + ", ".join(f"a{i}" for i in range(len(names))) + ")"] + body + ["end subroutine xs", f"end module xt{seed % 1000}"]
+    text = "\n".join(L) + "\n"
+    base = core.mktemp("vf_c01x_")
+    try:
+        open(os.path.join(base, "x.f90"), "w").write(text)
+        st, r = core.run_alone(observe_extra_types, {"root": base, "extra": opt}, timeout=120)
+    finally:
+        shutil.rmtree(base, ignore_errors=True)
+    viol = []
+    if st != "ok":
+        viol.append({"kf": {"kind": "ford_failed" if st == "raise" else "harness_" + st, "error": "extra_vartypes"}, "w": {"detail": str(r)[-600:], "file": text, "extra_vartypes": opt, "seed": seed}})
+    elif r != expected:
+        bad = sorted(set(expected) ^ set(r)) + [k for k in expected if k in r and r[k] != expected[k]]
+        viol.append({"kf": {"kind": "reference_mismatch", "entity": "variable", "field": "user_defined_type_name"},
+                     "w": {"expected": expected, "observed": r, "differs": bad[:6], "file": text, "extra_vartypes": opt, "seed": seed, "case": "extra_types"}})
+    return {"viol": viol, "n": len(expected)}
+
+
 def main():
     run = core.Run(
         PID,
@@ -173,7 +227,7 @@ def main():
     if rp:
         w = json.load(open(rp))["witness"]
         seed = w.get("seed")
-        r = case((seed, 3))
+        r = case_extra_types(seed) if w.get("case") == "extra_types" else case((seed, 3))
         print("replay:", "VIOLATION" if r["viol"] else "held")
         for v in r["viol"][:10]:
             print(json.dumps({k: x for k, x in v["w"].items() if not k.startswith("file")}, default=str)[:600])
@@ -194,8 +248,16 @@ def main():
             run.seen("entity_kinds", k)
         for v in r["viol"]:
             run.violation(v["kf"], v["w"])
+    seeds_x = [run.seed * 7919 + i for i in range(600 if thorough else 100)]
+    for sd, (st, r) in zip(seeds_x, core.fork_map(case_extra_types, seeds_x, per_case_fork=False, case_timeout=120)):
+        if st != "ok":
+            run.inconc(f"extra_types {st}: {str(r)[-300:]}")
+            continue
+        run.count("declarations_with_user_defined_type_names_compared", r["n"])
+        for v in r["viol"]:
+            run.violation(v["kf"], v["w"])
     run.max_samples = 2
-    run.finish(floors={"evaluations": 200, "distinct_nontrivial": 150, "entity_kinds": 15, "entities_compared": 10000})
+    run.finish(floors={"evaluations": 200, "distinct_nontrivial": 150, "entity_kinds": 15, "entities_compared": 10000, "declarations_with_user_defined_type_names_compared": 300})
 
 
 if __name__ == "__main__":
